@@ -18,7 +18,7 @@ value, increment and conversion, the worker's three tests, the sequential loop's
 wrappers the allocation length, the callee and its argument expressions, the callback's parameter
 binders, the index expressions of `out[…]` and `in[…]`, which context variable `f` gets, the result
 expressions of the `return`s. **Pinned but not computed with**: presence / order of the statements named
-in `Code.structural`, the statement shapes of the wrappers, the control skeletons (`pskel…_tie`).
+in `Code.structural`, the statement shapes of the wrappers, the control skeletons (`Code.skeleton`, `Wrapper.skeleton`).
 **Hand-written** (tied by skeletons + trace conformance of the real code only): the step function itself —
 which goroutine does what in which order, `.ret` enabled exactly when every worker is done
 (= the trusted meaning of `WaitGroup.Wait` / `errgroup.Wait`), `egDone` recording the first error and
@@ -97,8 +97,8 @@ example : ∃ s, Reach ⟨doCode, 2, 3, 8⟩ s ∧ s.ret ≠ none ∧ begunCount
 1. `running s ≤ s.ws.length` — the calls of `f` in progress are at most the goroutines that call `f`. This
    conjunct is *model shape*: the LTS gives every such goroutine one program counter, i.e. a goroutine runs
    its calls one after another. What ties that shape to the source is the worker's control skeleton
-   (`forever{fetch; if … {return}; … call}`: `pskelDoWorker_tie`, `pskelDoContextWorker_tie`, and the
-   sequential loops `pskelDoSeq_tie`, `pskelDoContextSeq_tie`), named in the proof, plus conformance.
+   (`forever{fetch; if … {return}; … call}`, and the sequential loops: `Code.skeleton`, the field
+   `Code.Sound.skeleton` this conjunct's proof is handed), plus conformance.
 2. `s.ws.length = nW cfg` and `nW cfg = if effPar cfg = 1 then 1 else (effPar cfg).toNat` — *content*: the number
    of goroutines is the number of iterations of the spawn loop `for j := 0; j < parallelism; j++`, whose
    `init`, condition and `post` clauses are regenerated (`spawnInit`, `spawnLoop`, `spawnPost`), run with the
@@ -119,8 +119,7 @@ theorem do_bound (cfg : Cfg) (hc : cfg.code = doCode ∨ cfg.code = dcCode) (s :
   have hs : cfg.code.Sound := by pardo_sound hc
   have hlen := (inv1 hs h).len
   have hshape : running s ≤ s.ws.length :=
-    Juniper.Proofs.SkeletonPar.under (And.intro (And.intro Juniper.Proofs.SkeletonPar.pskelDoWorker_tie Juniper.Proofs.SkeletonPar.pskelDoSeq_tie)
-      (And.intro Juniper.Proofs.SkeletonPar.pskelDoContextWorker_tie Juniper.Proofs.SkeletonPar.pskelDoContextSeq_tie)) List.countP_le_length
+    (fun (_ : cfg.code.skeleton = true) => List.countP_le_length) hs.skeleton
   have hnW : nW cfg = if effPar cfg = 1 then 1 else (effPar cfg).toNat := by
     unfold nW; rw [hs.isSeq, numWorkers_eq hs]; simp
   have hle : (nW cfg : Int) ≤ max 1 (reqPar cfg) := by
